@@ -8,6 +8,7 @@ from __future__ import annotations
 
 import copy
 import itertools
+import os
 
 from sim import faults, kernel, sched, world
 from sim.fingerprint import classify, config_fp, diff_paths, fp, generalise
@@ -17,6 +18,7 @@ from sim.outcome import canon_obj, run_call
 PROP = "C07"
 LEVEL = "exploration"
 
+TRUE_COLD_EVERY = 10
 CONFIGS = ["shared-pandas", "separate-pandas", "polars-mixed", "polars-eager-only", "shared-polars", "mixed", "models-cold"]
 
 
@@ -27,7 +29,7 @@ def plan(tier):
 def describe():
     return {
         "rule": ("one run = a seeded workload (2-3 concurrent validate calls over pandas/polars schemas, shared or separate schema objects, "
-                 "eager/lazy, passing/failing data, optional callback faults, cold or warm registries) executed under one seeded schedule "
+                 "eager/lazy, passing/failing data, optional callback faults, optionally inside a caller's config_context; every 10th run in a fresh, genuinely cold interpreter) executed under one seeded schedule "
                  "(uniform / PCT / window-targeted policy) by the baton-passing settrace scheduler; outcomes, schema fingerprints, process "
                  "configuration and caller frames are compared with the sequential reference. evaluations = concurrent executions. "
                  "Non-trivial = at least one context switch happened while another thread was inside its validate call; distinct = digest "
@@ -35,7 +37,7 @@ def describe():
         "components": {"real": ["all of pandera", "pandas", "numpy", "polars (pool pinned to one thread; treated as a deterministic function)",
                                 "real OS threads (threading.Thread), one per simulated caller"],
                        "simulator_owned": ["which thread runs next at every traced line inside pandera/ (sys.settrace baton passing)",
-                                           "user callbacks and their fault plans (thread-local)", "registry temperature (cold/warm) per run"],
+                                           "user callbacks and their fault plans (thread-local)", "process temperature: every 10th run is the first pandera activity of a fresh interpreter"],
                        "stubbed": []},
         "assumptions": ["pre-emption granularity is a source line inside pandera/ (and the callback library); races wholly inside one line "
                         "or inside pandas/polars are not explored",
@@ -119,8 +121,19 @@ def gen_workload(rng, idx):
         # fault plan is not visible: such a plan would fire alone but not under the scheduler - a harness artefact
         if '"pl_elem_true"' not in kernel.jdump(subjects[c["subject"]]):
             c["plan"] = {str(rng.choice([1, 1, 2, 3])): rng.choice(["exc_msg", "KeyError", "exc_noargs", "SchemaError"])}
-    cold = rng.random() < 0.35
-    return {"config": cfg, "subjects": subjects, "calls": calls, "cold": cold}
+    rng.random()        # (stream position kept: this draw used to decide the in-process "cold registries" knob, see DESIGN.md)
+    wl = {"config": cfg, "subjects": subjects, "calls": calls, "cold": False}
+    if kernel.derive_int("true-cold", idx) % TRUE_COLD_EVERY == 0:       # spread over run indices (hence over workers)
+        # a genuinely cold process: the workload runs as the very first pandera activity of a fresh interpreter, so every
+        # lazily filled registry, cache and lazily imported module - including ones a change to pandera might add - is cold
+        wl["true_cold"] = True
+        wl["cold"] = False
+    # ambient configuration (own stream): the threads may be started from inside a config_context of the caller
+    r2 = kernel.derive(rng.getrandbits(32), "ambient")
+    if r2.random() < 0.25:
+        from checks import c06
+        wl["ambient"] = r2.choice(c06.AMBIENT)
+    return wl
 
 
 # ---------------------------------------------------------------------------------------------
@@ -182,18 +195,6 @@ def _subject_fp(s):
     return fp(s.to_schema()) if isinstance(s, type) else fp(s)
 
 
-def _make_cold():
-    """Simulated process restart for the lazily filled registries."""
-    from pandera.api.base.schema import BaseSchema
-    from pandera.api.checks import Check
-    from pandera.backends.pandas.register import register_pandas_backends
-    from pandera.backends.polars.register import register_polars_backends
-    BaseSchema.BACKEND_REGISTRY.clear()
-    type(Check).BACKEND_REGISTRY.clear()
-    register_pandas_backends.cache_clear()
-    register_polars_backends.cache_clear()
-
-
 def _make_warm():
     import pandas as pd
     import polars as pl
@@ -229,7 +230,8 @@ def call_fn(subject, frame, call, thread_local):
 def sequential_reference(wl):
     """Each call alone on freshly built objects: (outcome, state of the caller's frame after the call)."""
     ref, ref_frames = [], []
-    _MON["logs"] = {}
+    for k in [k for k in _MON["logs"] if isinstance(k, tuple)]:
+        del _MON["logs"][k]
     for i, c in enumerate(wl["calls"]):
         subs, frames = build_objects(wl)
         _MON["solo"] = ("solo", i)
@@ -252,22 +254,93 @@ def sequential_order(wl, order):
     return outs, [_subject_fp(s) for s in subs]
 
 
-def run_workload(wl, policy_or_rng, want_detail=False):
+class _ChildSched:
+    """The scheduler-side results of a run executed in a child interpreter."""
+
+    def __init__(self, d):
+        self.switches = [tuple(x) for x in d["switches"]]
+        self.stats = d["stats"]
+        self.step = d["step"]
+        self.policy = d["policy"]
+        self._schedule = d["schedule"]
+
+    def schedule(self):
+        return self._schedule
+
+
+def run_workload(wl, policy_or_rng, want_detail=False, schedule_seed=None):
     """Returns (violations [(class, detail)], scheduler, info)."""
+    if wl.get("true_cold") and not os.environ.get("VERIF_C07_CHILD"):
+        return _run_in_cold_child(wl, policy_or_rng, schedule_seed)
     from pandera import config
     config.reset_config_context()
+    if wl.get("ambient"):
+        from checks import c06
+        with config.config_context(**c06.ambient_kwargs(wl["ambient"])):
+            amb = config.get_config_context(validation_depth_default=None)
+            res = _run_workload(wl, policy_or_rng, lambda: config.reset_config_context(amb))
+        config.reset_config_context()
+        return res
+    return _run_workload(wl, policy_or_rng, config.reset_config_context)
+
+
+def _run_in_cold_child(wl, policy_or_rng, schedule_seed):
+    """Fresh interpreter; the scheduled run is its first pandera activity, the solo reference runs come afterwards."""
+    import json
+    import subprocess
+    if isinstance(policy_or_rng, dict):
+        req = {"workload": wl, "policy": policy_or_rng}
+    else:
+        if schedule_seed is None:
+            raise kernel.HarnessError("true-cold workload needs the schedule seed labels (the PRNG cannot cross the process boundary)")
+        req = {"workload": wl, "schedule_seed": list(schedule_seed)}
+    env = dict(os.environ, VERIF_C07_CHILD="1")
+    r = subprocess.run([kernel.PY, os.path.join(kernel.VERIF_DIR, "sim", "cli.py"), "_c07child"], input=json.dumps(req),
+                       capture_output=True, text=True, timeout=900, env=env, cwd=kernel.VERIF_DIR)
+    lines = [ln for ln in r.stdout.splitlines() if ln.startswith("{")]
+    if r.returncode != 0 or not lines:
+        raise kernel.HarnessError(f"cold child failed rc={r.returncode}: {r.stderr[-1500:]}")
+    d = json.loads(lines[-1])
+    if d.get("harness_error"):
+        raise kernel.HarnessError("cold child: " + d["harness_error"])
+    return [tuple(v) for v in d["vio"]], _ChildSched(d), d["info"]
+
+
+def child_main():
+    """Entry point of the cold child (sim/cli.py _c07child): request on stdin, one JSON line on stdout."""
+    import json
+    import sys
+    req = json.loads(sys.stdin.read())
+    wl = req["workload"]
+    try:
+        if "policy" in req:
+            pol = req["policy"]
+        else:
+            pol = kernel.derive(*req["schedule_seed"])
+            kernel.reseed_ambient(kernel.derive(*req["schedule_seed"], "ambient-entropy"))
+        vio, sc, info = run_workload(wl, pol)
+        out = {"vio": [list(v) for v in vio], "switches": [list(x) for x in sc.switches], "stats": sc.stats, "step": sc.step,
+               "policy": sc.policy, "schedule": sc.schedule(), "info": info}
+    except kernel.HarnessError as e:
+        out = {"harness_error": str(e)}
+    print(kernel.jdump(out))
+    return 0
+
+
+def _run_workload(wl, policy_or_rng, reset_config):
+    from pandera import config
     faults.install(faults.FaultState())
     install_config_monitor()
-    _make_warm()
-    ref, ref_frames = sequential_reference(wl)
-    config.reset_config_context()
+    true_cold = bool(wl.get("true_cold"))
+    if not true_cold:
+        _make_warm()
+        ref, ref_frames = sequential_reference(wl)
+    reset_config()
     cfg0 = config_fp()
 
     subs, frames = build_objects(wl)
     fps0 = [_subject_fp(s) for s in subs]
     frames0 = [canon_obj(f) for f in frames]
-    if wl.get("cold"):
-        _make_cold()
     fns = [call_fn(subs[c["subject"]], frames[i], c, True) for i, c in enumerate(wl["calls"])]
     if isinstance(policy_or_rng, dict):
         policy = policy_or_rng
@@ -277,14 +350,20 @@ def run_workload(wl, policy_or_rng, want_detail=False):
         est = 1500 * len(fns)
         policy = sched.make_policy(rng, est, len(fns))
     sc = sched.Scheduler(rng, policy)
+    for k in [k for k in _MON["logs"] if not isinstance(k, tuple)]:      # observations of earlier scheduled runs in this process
+        del _MON["logs"][k]
     outs = sc.run(fns)
     got = [o.canon for o in outs]
-    if wl.get("cold"):
-        _make_warm()
 
     vio = []
     cfg1 = config_fp()
-    fps1 = [_subject_fp(s) for s in subs]
+    if true_cold:
+        fps1_cold = [_subject_fp(s) for s in subs]
+        frames1_cold = [canon_obj(f) for f in frames]
+        reset_config()
+        ref, ref_frames = sequential_reference(wl)      # the reference comes after the cold scheduled run
+        reset_config()
+    fps1 = fps1_cold if true_cold else [_subject_fp(s) for s in subs]
     backends = "+".join(sorted({wl["subjects"][c["subject"]]["backend"] for c in wl["calls"]}))
     shared = len({c["subject"] for c in wl["calls"]}) < len(wl["calls"])
     containers = "+".join(sorted({_container(wl, c) for c in wl["calls"]}))
@@ -304,7 +383,7 @@ def run_workload(wl, policy_or_rng, want_detail=False):
             if o2 == got and f2 == fps1:
                 explained = True
                 break
-        config.reset_config_context()
+        reset_config()
         if not explained:
             for i in mismatch:
                 c = wl["calls"][i]
@@ -319,13 +398,14 @@ def run_workload(wl, policy_or_rng, want_detail=False):
     if cfg1 != cfg0:
         vio.append((f"config-state|{tag}|{','.join(sorted(generalise(p) for p in diff_paths(cfg0, cfg1)))}",
                     f"process configuration after join {cfg1} != before {cfg0}"))
-        config.reset_config_context()
+        reset_config()
     # the caller's frame must be in the state the solo run leaves it in (whether a solo validate may touch its argument at
     # all is C04's subject, not C07's: the statement here is "exactly what it would have when run alone")
+    frames1 = frames1_cold if true_cold else [canon_obj(f) for f in frames]
     for i, f in enumerate(frames):
-        if canon_obj(f) != ref_frames[i]:
+        if frames1[i] != ref_frames[i]:
             vio.append((f"caller-data|{tag}", f"frame of call {i} after the concurrent run differs from its state after the same call run alone"
-                                              f" (unchanged from input: {canon_obj(f) == frames0[i]})"))
+                                              f" (unchanged from input: {frames1[i] == frames0[i]})"))
     return vio, sc, {"ref": ref, "got": got, "tag": tag, "interfered": interfered}
 
 
@@ -354,6 +434,10 @@ def workload_tags(wl):
         t.add("shared-schema-object")
     if wl.get("cold"):
         t.add("cold-registries")
+    if wl.get("ambient"):
+        t.add("ambient-config-context")
+    if wl.get("true_cold"):
+        t.add("true-cold-process")
     if any(s["kind"] == "model" for s in wl["subjects"]):
         t.add("model")
     return sorted(t)
@@ -364,7 +448,7 @@ def run_one(seed, tier, idx):
     kernel.reseed_ambient(rng)
     wl = gen_workload(rng, idx)
     srng = kernel.derive(seed, PROP, idx, "schedule")
-    vio, sc, info = run_workload(wl, srng)
+    vio, sc, info = run_workload(wl, srng, schedule_seed=(seed, PROP, idx, "schedule"))
     log = kernel.EventLog()
     log.add("workload", kernel.digest_of(wl))
     for s in sc.switches:
@@ -379,6 +463,10 @@ def run_one(seed, tier, idx):
             stats["fault.callback_exception_in_thread"] = stats.get("fault.callback_exception_in_thread", 0) + 1
     if wl.get("cold"):
         stats["fault.cold_registries(process restart)"] = 1
+    if wl.get("ambient"):
+        stats["probe.threads_started_inside_callers_config_context"] = 1
+    if wl.get("true_cold"):
+        stats["fault.true_cold_process(fresh interpreter)"] = 1
     nontrivial = sc.stats.get("probe.switch_while_other_inside.validate", 0) > 0 or any(
         k.startswith("probe.switch_while_other_inside.") for k in sc.stats)
     key = kernel.digest_of([kernel.digest_of(wl), [s[3] for s in sc.switches]]) if nontrivial else None
@@ -433,6 +521,14 @@ def shrink_candidates(payload):
     if wl.get("cold"):
         p = copy.deepcopy(payload)
         p["workload"]["cold"] = False
+        yield p
+    if wl.get("ambient"):
+        p = copy.deepcopy(payload)
+        del p["workload"]["ambient"]
+        yield p
+    if wl.get("true_cold"):
+        p = copy.deepcopy(payload)
+        del p["workload"]["true_cold"]
         yield p
 
 
